@@ -163,7 +163,7 @@ func c04Embedded(r *core.R, root *c04Root) {
 // c04X5: Date is written as the layout-formatted text it is parsed from.
 func c04X5(r *core.R) {
 	c03Init(r)
-	c03DateLayout(r, "layout@Date")
+	c03DateLayout(r, "layout@Date", true)
 	obs := c03ObserveDate(r)
 	if obs == nil {
 		return
